@@ -47,8 +47,11 @@ type c12hpInitCase struct {
 	Script     []c12hpStep `json:"script"`
 	Listen     int         `json:"listen"`
 	Filter     int         `json:"filter"`
-	LateAt     int         `json:"late_inbound_direct_at,omitempty"`
-	Startup    int         `json:"startup_empty_polls,omitempty"` // listenAddrs() is empty for the first n polls of waitForPublicAddr
+	LateAt     int         `json:"late_inbound_direct_at,omitempty"`              // a direct connection appears during the k-th failed punch (1-based)
+	LateDial   bool        `json:"late_direct_during_preliminary_dial,omitempty"` // ... during the preliminary direct dial, which fails
+	LateCoord  int         `json:"late_direct_during_coordination,omitempty"`     // ... during the k-th coordination exchange (after our CONNECT arrived, before the answer)
+	LateOut    bool        `json:"late_direct_is_outbound,omitempty"`             // the appearing connection is outbound (dialled by another subsystem) instead of inbound
+	Startup    int         `json:"startup_empty_polls,omitempty"`                 // listenAddrs() is empty for the first n polls of waitForPublicAddr
 	FailBlocks bool        `json:"failed_dial_blocks_until_deadline,omitempty"`
 	Notify     int         `json:"notify_conn,omitempty"`   // 0: call Service.DirectConnect; 1..4: deliver Connected(conn of that kind) instead
 	LimFlags   int         `json:"limited_flags,omitempty"` // c12hpLim*: bit 0 relayed connections are NOT Limited, bit 1 direct connections report Limited
@@ -71,8 +74,32 @@ func (c *c12hpInitCase) describe(w *c12hpWorld) string {
 	if c.Notify != 0 {
 		how = "Connected(" + c12hpNotifyNames[c.Notify] + ")"
 	}
-	return fmt.Sprintf("%s; peerstore=%v conns=%s Stat().Limited=[%s] directDial=%v remote-script=%v listenAddrs=%s filter=%s late-inbound-direct-at=%d startup-empty-polls=%d failed-dial-blocks=%v",
-		how, ps, c12hpConnsNames[c.Conns], c12hpLimNames[c.LimFlags&3], c.DirectOK, sc, c12hpListenNames[c.Listen], c12hpFilterNames[c.Filter], c.LateAt, c.Startup, c.FailBlocks)
+	return fmt.Sprintf("%s; peerstore=%v conns=%s Stat().Limited=[%s] directDial=%v remote-script=%v listenAddrs=%s filter=%s late-direct-conn=%s startup-empty-polls=%d failed-dial-blocks=%v",
+		how, ps, c12hpConnsNames[c.Conns], c12hpLimNames[c.LimFlags&3], c.DirectOK, sc, c12hpListenNames[c.Listen], c12hpFilterNames[c.Filter], c.lateName(), c.Startup, c.FailBlocks)
+}
+
+// late: does the environment produce a direct connection at some point of this case's history?
+func (c *c12hpInitCase) late() bool { return c.LateAt != 0 || c.LateDial || c.LateCoord != 0 }
+
+func (c *c12hpInitCase) lateName() string {
+	if !c.late() {
+		return "never"
+	}
+	var at []string
+	if c.LateDial {
+		at = append(at, "during-the-preliminary-direct-dial")
+	}
+	if c.LateCoord != 0 {
+		at = append(at, fmt.Sprintf("during-coordination-%d", c.LateCoord))
+	}
+	if c.LateAt != 0 {
+		at = append(at, fmt.Sprintf("during-failed-punch-%d", c.LateAt))
+	}
+	dir := "inbound"
+	if c.LateOut {
+		dir = "outbound"
+	}
+	return dir + "@" + strings.Join(at, "+")
 }
 
 func (c *c12hpInitCase) onlyRelayed() bool {
@@ -81,7 +108,7 @@ func (c *c12hpInitCase) onlyRelayed() bool {
 
 // honest: an honest, reachable-by-punching remote; every such case must end with DirectConnect == nil.
 func (c *c12hpInitCase) honest() bool {
-	if c.Notify != 0 || c.LateAt != 0 || len(c.Script) == 0 {
+	if c.Notify != 0 || c.late() || len(c.Script) == 0 {
 		return false
 	}
 	if !c.onlyRelayed() {
@@ -196,6 +223,8 @@ func c12hpRunInit(t *testing.T, w *c12hpWorld, c *c12hpInitCase) (o c12hpInitObs
 		}
 		h.punchOK = func(k int) bool { return step(k).ConnectOK }
 		h.lateAt = c.LateAt
+		h.lateDial = c.LateDial
+		h.lateOut = c.LateOut
 		h.failBlocks = c.FailBlocks
 		h.streamError = func(k int) error {
 			if step(k).Answer == c12hpAnsStreamErr {
@@ -213,6 +242,10 @@ func c12hpRunInit(t *testing.T, w *c12hpWorld, c *c12hpInitCase) (o c12hpInitObs
 			rec.GotType = msg.GetType().String()
 			rec.GotAddrs = c12hpStrs(c12hpParse(msg.ObsAddrs))
 			rec.mu.Unlock()
+			if c.LateCoord == k+1 {
+				// our CONNECT has arrived over the relayed connection; meanwhile a direct connection comes into being
+				h.addLate()
+			}
 			a := step(k).Answer
 			time.Sleep(c12hpRTT)
 			rec.mu.Lock()
@@ -578,21 +611,44 @@ func c12hpInitCases(thorough bool, yield func(c c12hpInitCase) bool) {
 			}
 		}
 	}
-	// the remote's own dial lands an inbound direct connection while our k-th punch fails
+	// a direct connection appears at every point of the directConnect history at which the environment has the floor:
+	// during the preliminary direct dial (which then fails - the peerstore must hold a public non-relay address for
+	// that dial to be made at all), during the k-th coordination exchange, during the k-th failed punch (= before the
+	// next attempt's stream is opened); inbound (the remote's own dial landing) or outbound (another subsystem dialled).
+	// (Before the call: the connection sets with a direct connection of the main space.)
+	type latePoint struct {
+		dial         bool
+		coord, punch int
+	}
+	latePoints := []latePoint{{dial: true}, {coord: 1}, {punch: 1}, {coord: 2}, {punch: 2}, {coord: 3}, {punch: 3}}
 	for lf := 0; lf < c12hpNLimFlags; lf++ {
 		lateScripts := all
 		if lf != 0 && !thorough {
 			lateScripts = scripts
 		}
-		for _, late := range []int{1, 2, 3} {
-			for _, ps := range []int{0, 1, 16, 31} {
-				for _, conns := range []int{c12hpConnsRelayedIn, c12hpConnsRelayedOut} {
-					for _, sc := range lateScripts {
-						if len(sc) < late {
-							continue
-						}
-						if !yield(c12hpInitCase{Space: "late-inbound-direct", PsMask: ps, Conns: conns, Script: sc, Listen: c12hpListenPublic, LateAt: late, LimFlags: lf}) {
-							return
+		for _, out := range []bool{false, true} {
+			for _, lp := range latePoints {
+				for _, ps := range []int{0, 1, 2, 16, 31} {
+					if lp.dial && ps&3 == 0 {
+						continue // no public address in the peerstore: no preliminary dial, the point does not exist
+					}
+					for _, conns := range []int{c12hpConnsRelayedIn, c12hpConnsRelayedOut, c12hpConnsTwoRelayed} {
+						for _, sc := range lateScripts {
+							if len(sc) < max(lp.coord, lp.punch) {
+								continue
+							}
+							fbs := []bool{false}
+							if lp.dial {
+								if !c12hpConstant(sc) && !thorough {
+									continue // the script is reached only if the code goes on after the dial: constant scripts suffice in the quick tier
+								}
+								fbs = []bool{false, true} // both flavours of the failed dial
+							}
+							for _, fb := range fbs {
+								if !yield(c12hpInitCase{Space: "late-direct", PsMask: ps, Conns: conns, Script: sc, Listen: c12hpListenPublic, LateAt: lp.punch, LateDial: lp.dial, LateCoord: lp.coord, LateOut: out, FailBlocks: fb, LimFlags: lf}) {
+									return
+								}
+							}
 						}
 					}
 				}
@@ -644,12 +700,12 @@ func c12hpInitiator(t *testing.T) {
 		r.Bounds["remote_script"] = fmt.Sprintf("every sequence of answers over the attempts (%d scripts)", len(c12hpScripts(false)))
 		r.Bounds["failed_dial"] = "fails after 300 ms | blocks until the context deadline (full product)"
 	} else {
-		r.Bounds["remote_script"] = fmt.Sprintf("main space: the same answer on every attempt (%d scripts); every sequence (%d scripts) for listen=public, filter=none and in the late-inbound-direct sub-space", len(c12hpScripts(true)), len(c12hpScripts(false)))
+		r.Bounds["remote_script"] = fmt.Sprintf("main space: the same answer on every attempt (%d scripts); every sequence (%d scripts) for listen=public, filter=none and in the late-direct sub-space", len(c12hpScripts(true)), len(c12hpScripts(false)))
 		r.Bounds["failed_dial"] = "fails after 300 ms; blocks until the context deadline for listen=public, filter=none"
 	}
 	r.Bounds["listen_addrs"] = strings.Join(c12hpListenNames, " | ")
 	r.Bounds["addr_filter"] = strings.Join(c12hpFilterNames, " | ")
-	r.Bounds["sub_spaces"] = "main (full product, natural Limited flags) | quick only: all-scripts, blocking-dial (listen=public, filter=none) | limited-flags (the 3 other settings of Stat().Limited x all peerstore subsets x all connection sets x direct dial; quick: constant scripts, listen=public, filter=none; thorough: every sequence x every listen set, filter=none) | late-inbound-direct (remote's dial lands during our failed attempt 1..3; all 4 Limited settings) | startup-poll (1,3,7 empty polls) | notify (Connected for 4 kinds of connection x 3 prior connection sets x 4 Limited settings)"
+	r.Bounds["sub_spaces"] = "main (full product, natural Limited flags) | quick only: all-scripts, blocking-dial (listen=public, filter=none) | limited-flags (the 3 other settings of Stat().Limited x all peerstore subsets x all connection sets x direct dial; quick: constant scripts, listen=public, filter=none; thorough: every sequence x every listen set, filter=none) | late-direct (a direct connection - inbound or outbound - appears during the failed preliminary direct dial, during coordination exchange 1..3 or during failed punch 1..3; peerstore subsets {none, public tcp, public quic, relay only, all} x {relayed-in, relayed-out, two relayed}; all 4 Limited settings) | startup-poll (1,3,7 empty polls) | notify (Connected for 4 kinds of connection x 3 prior connection sets x 4 Limited settings)"
 	shard, nshards := vrep.Shard()
 	deadline := vrep.Deadline()
 	distinct := map[string]struct{}{}
